@@ -20,6 +20,12 @@ package core
 //   GG now c g     tombstone / reaper call sites: StorageSetDeleteGroup then httpserver.DeleteConsumerMetrics
 //   R now          read phase: GET /metrics first, then every JSON endpoint
 //   RJ now         read phase: every JSON endpoint first, then GET /metrics
+//   RW now / RJW now   the same two read phases WITHOUT emptying the evaluator's result cache first (warm reads)
+//   XC now secs    set evaluator expire-cache to secs (real seconds) and restart the evaluator (cache empty)
+//   SL now ms      sleep ms real milliseconds (the evaluator cache runs on the real clock)
+// R / RJ restart the evaluator first (empty cache).  A warm read is only meaningful while every entry filled since the last
+// sleep / restart is still valid: the probe appends " TIMING" to the case output when a warm read ended later than 0.7 x
+// expire-cache after that moment (the check discards such a case instead of judging it).
 // The gauge vectors are process-global: the generator gives every case its own cluster ids, the probe only
 // reports series whose cluster label belongs to the case, and it deletes the case's series afterwards.
 
@@ -93,6 +99,9 @@ type vmSys struct {
 	ngroups  int64
 	ntopics  int64
 	mine     map[string]bool
+	segStart time.Time // last moment at which no cache entry filled before it can still be valid
+	cacheSec int64
+	late     bool
 }
 
 func (s *vmSys) setClock(now int64) {
@@ -113,6 +122,7 @@ func (s *vmSys) newEvaluator() {
 func (s *vmSys) flushEvaluatorCache() {
 	s.ev.Stop()
 	s.newEvaluator()
+	s.segStart = time.Now()
 }
 
 func (s *vmSys) send(r *protocol.StorageRequest) { s.app.StorageChannel <- r }
@@ -502,7 +512,8 @@ func vmHistory(t *vmToks) (res string) {
 	viper.Set("storage.verif.min-distance", mindist)
 	viper.Set("storage.verif.workers", 1)
 	viper.Set("evaluator.verif.class-name", "caching")
-	viper.Set("evaluator.verif.expire-cache", 3600)
+	s.cacheSec = 3600
+	viper.Set("evaluator.verif.expire-cache", s.cacheSec)
 	viper.Set("evaluator.verif.minimum-complete", float64(minComplete))
 	viper.Set("evaluator.verif.allowed-lag", allowed)
 	viper.Set("httpserver.verif.address", "127.0.0.1:0")
@@ -603,12 +614,25 @@ func vmHistory(t *vmToks) (res string) {
 				out = append(out, fmt.Sprintf("DELETE-FAILED %d", code))
 			}
 			s.barrier()
-		case "R", "RJ":
-			s.barrier()
+		case "XC":
+			s.cacheSec = t.i64()
+			viper.Set("evaluator.verif.expire-cache", s.cacheSec)
 			s.flushEvaluatorCache()
+		case "SL":
+			ms := t.i64()
+			s.barrier()
+			time.Sleep(time.Duration(ms) * time.Millisecond)
+			if ms > s.cacheSec*1000 {
+				s.segStart = time.Now()
+			}
+		case "R", "RJ", "RW", "RJW":
+			s.barrier()
+			if op == "R" || op == "RJ" {
+				s.flushEvaluatorCache()
+			}
 			var m string
 			var js []string
-			if op == "R" {
+			if op == "R" || op == "RW" {
 				m = s.scrape()
 				js = s.readJSON()
 			} else {
@@ -616,9 +640,16 @@ func vmHistory(t *vmToks) (res string) {
 				m = s.scrape()
 			}
 			out = append(out, m+" ; "+strings.Join(js, " ; "))
+			if (op == "RW" || op == "RJW") && s.cacheSec > 0 &&
+				time.Since(s.segStart) > time.Duration(s.cacheSec)*700*time.Millisecond {
+				s.late = true
+			}
 		default:
 			panic("unknown op " + op)
 		}
+	}
+	if s.late {
+		return strings.Join(out, " | ") + " TIMING"
 	}
 	return strings.Join(out, " | ")
 }
